@@ -58,11 +58,14 @@ class UVLReader(TextToModel):
         input_stream = FileStream(absolute_path, encoding='utf-8')
         lexer = UVLCustomLexer(input_stream)
 
+        # Attach custom error listener (to the lexer too: illegal characters are lexer errors)
+        error_listener = CustomErrorListener()
+        lexer.removeErrorListeners()
+        lexer.addErrorListener(error_listener)
+
         stream = CommonTokenStream(lexer)
         parser = UVLPythonParser(stream)
 
-        # Attach custom error listener
-        error_listener = CustomErrorListener()
         parser.removeErrorListeners()
         parser.addErrorListener(error_listener)
 
